@@ -207,7 +207,7 @@ KINDS = [
 ]
 NKINDS = len(KINDS)
 STYLES = ["%s:%s", " %s : %s ", "%s:%s"]
-MAXR = tier(3, 4)
+MAXR = tier(3, 3)      # (4 rules x 8 pattern kinds x the four-object tree does not finish within the thorough budget)
 
 
 def expected(shape, rules):
@@ -289,7 +289,7 @@ def run_privacy(shape, rules, style):
     timeout=(200, 1800), cls="F", tracing="concrete-after-choice", twin="first",
     code=["pydoctor.model.System.privacyClass", "pydoctor.model.Documentable.privacyClass/isPrivate/isVisible", "pydoctor.options._convert_privacy", "pydoctor.utils.parse_privacy_tuple", "pydoctor.qnmatch.qnmatch (concrete patterns)"],
     bounds={"quick": "rule lists of <= 3 rules; each rule: privacy in {HIDDEN, PRIVATE, PUBLIC} x 8 pattern kinds (exact name, '**', 'mod.*', '*', 'other.**', one-char-too-long '?', '?' standing for the dot, brackets incl. '[.]'); 5 name shapes (x, _x, __x__, __x, _x__), for a function in the module, a class and a method of that class (privacy of all four objects by an independent matcher; visibility through hidden ancestors); 3 spellings of the rule string (chosen by the list)",
-            "thorough": "same with <= 4 rules and 8 name shapes (adds _x__, x_, __init__, _)"},
+            "thorough": "same with 8 name shapes (adds _x__, x_, __init__, _)"},
     outside="rule lists longer than the bound; cache behaviour across changes of the option list (cache is per name by design)",
 )
 def h_privacy_rules(n: int, p1: int, k1: int, p2: int, k2: int, p3: int, k3: int, p0: int) -> bool:
